@@ -554,8 +554,9 @@ String Json::stripComments(const String& data)
               src = end + 2;
               goto checkStr;
             }
-            *(dest++) = *(end++);
-            src = end;
+            if (*end != '*')
+              *(dest++) = *end; // keep line breaks, drop a '*' that does not end the comment
+            src = end + 1;
             continue;
           }
           else
